@@ -51,21 +51,37 @@ Definition href_after (href : string) (s : setter) (v : string) : option (list N
 Local Open Scope string_scope.
 
 (* ---------- percent-encode sets ---------- *)
-Lemma encode_sets_nested : forall c, c < 1114112 ->
+Lemma above_tilde_in_every_set : forall c, 126 < c ->
+  in_c0_control_set c = true /\ in_fragment_set c = true /\ in_query_set c = true
+  /\ in_special_query_set c = true /\ in_path_set c = true /\ in_userinfo_set c = true
+  /\ in_component_set c = true.
+Proof.
+  intros c Hc.
+  assert (H0 : in_c0_control_set c = true).
+  { unfold in_c0_control_set. apply orb_true_iff. right. apply N.ltb_lt. exact Hc. }
+  unfold in_component_set, in_userinfo_set, in_path_set, in_special_query_set, in_query_set, in_fragment_set.
+  rewrite H0. cbn [orb]. repeat split; reflexivity.
+Qed.
+
+Lemma encode_sets_nested : forall c,
   (in_c0_control_set c = true -> in_fragment_set c = true /\ in_query_set c = true)
   /\ (in_query_set c = true -> in_special_query_set c = true /\ in_path_set c = true)
   /\ (in_path_set c = true -> in_userinfo_set c = true)
   /\ (in_userinfo_set c = true -> in_component_set c = true).
 Proof.
-  assert (H : all_below 1114112 (fun c =>
+  assert (H : all_below 128 (fun c =>
       implb (in_c0_control_set c) (in_fragment_set c && in_query_set c)
       && implb (in_query_set c) (in_special_query_set c && in_path_set c)
       && implb (in_path_set c) (in_userinfo_set c)
       && implb (in_userinfo_set c) (in_component_set c)) = true) by (vm_compute; reflexivity).
-  intros c Hc. pose proof (all_below_spec _ _ H c Hc) as H1. cbv beta in H1.
-  destruct (in_c0_control_set c), (in_fragment_set c), (in_query_set c), (in_special_query_set c),
-    (in_path_set c), (in_userinfo_set c), (in_component_set c); cbn in H1; try discriminate H1;
-    repeat split; intros; try reflexivity; try discriminate.
+  intros c. destruct (N.ltb_spec c 128) as [Hc | Hc].
+  - pose proof (all_below_spec _ _ H c Hc) as H1. cbv beta in H1.
+    destruct (in_c0_control_set c), (in_fragment_set c), (in_query_set c), (in_special_query_set c),
+      (in_path_set c), (in_userinfo_set c), (in_component_set c); cbn in H1; try discriminate H1;
+      repeat split; intros; try reflexivity; try discriminate.
+  - assert (Hc' : 126 < c) by lia.
+    destruct (above_tilde_in_every_set c Hc') as (H0 & H1 & H2 & H3 & H4 & H5 & H6).
+    rewrite H0, H1, H2, H3, H4, H5, H6. repeat split; reflexivity.
 Qed.
 
 Example ascii_members :
